@@ -409,7 +409,13 @@ def run(ctx):
             dict(cfg="MCLifecycleRetry"),
             dict(cfg="MCLifecycleRetryBare", ok=False, prop="P_C14_Exit_POR"),      # announceRetry without its ctx arm
             dict(cfg="MCLifecycleDirect"),
-            dict(cfg="MCLifecycleDirectBare", ok=False, prop="P_C14_Exit_POR")]     # as found (D29): bare sends on gs.connect
+            dict(cfg="MCLifecycleDirectBare", ok=False, prop="P_C14_Exit_POR"),
+            dict(cfg="MCLifecycleAdopt"),
+            dict(cfg="MCLifecycleAdoptUnbuf", ok=False, prop="P_C14_Exit_POR"),       # unbuffered firstMessage: the loop blocks on the hello
+            dict(cfg="MCLifecycleBoot"), dict(cfg="MCLifecycleBootRoundOnly"), dict(cfg="MCLifecycleBootNoTimerArm"),
+            dict(cfg="MCLifecycleBootNoEvalArm", ok=False, prop="P_C14_Returns_POR"),  # discover.Bootstrap without a p.ctx arm
+            dict(cfg="MCLifecycleBootNoDoneArm", ok=False, prop="P_C14_Returns_POR"),
+            dict(cfg="MCLifecycleBootC2", ok=False, prop="P_C14_Returns_POR")]     # as found (D29): bare sends on gs.connect
     if ctx.thorough:
         jobs = [dict(cfg="MCLifecycle3", workers=2, timeout=2400, allow_timeout=True)] + jobs + [
             dict(cfg="MCLifecycleAux", timeout=900), dict(cfg="MCLifecycleDisc2"),
@@ -616,7 +622,8 @@ def replay_and_judge(ctx, join_mc, mcs, mc_counts):
            "goroutine_points": pts_hit, "goroutine_points_unreached": UNREACHED_POINTS,
            "as_found_configs_fail": ["MCLifecycleD9", "MCLifecycleD10", "MCLifecycleUnbuf", "MCLifecycleSmallD9",
                                      "MCLifecycleSendMsg", "MCLifecycleSendMsgW", "MCLifecycleReaderCTA", "MCLifecycleRetryBare",
-                                     "MCLifecycleDirectBare"]}
+                                     "MCLifecycleDirectBare", "MCLifecycleAdoptUnbuf", "MCLifecycleBootNoEvalArm",
+                                     "MCLifecycleBootNoDoneArm", "MCLifecycleBootC2"]}
     return vlib.finish(ctx, LEVEL, cov, [
         "validators and other application callbacks return when the instance context is cancelled or when the application releases them (the harness does both)",
         "Go's select picks among ready cases at random: which of several pending requests the released loop serves before it sees ctx.Done is sampled, the model covers all choices",
